@@ -32,6 +32,7 @@ package binary
 //@ spec func dim(t dsl.Type) dsl.Dimensionality = t.(*dsl.GeneralizedType).Dimensionality
 //@ spec func isGenT(t dsl.Type) bool = typeof(t) == *dsl.GeneralizedType && t.(*dsl.GeneralizedType) != nil
 
+//@ observe-args strings.Join
 //@ func typeSerializer
 //@   property C14
 //@   pure
@@ -43,6 +44,10 @@ package binary
 //@   ensures fixed_vector_carries_length: isGenT(t) && typeof(dim(t)) == *dsl.Vector && dim(t).(*dsl.Vector) != nil && dim(t).(*dsl.Vector).Length != nil ==> result == "yardl.binary.FixedVectorSerializer(" + scalarSer(gen(t), contextNamespace, namedType) + ", " + itoa(*dim(t).(*dsl.Vector).Length) + ")"
 //@   ensures ndarray_carries_rank: isGenT(t) && typeof(dim(t)) == *dsl.Array && dim(t).(*dsl.Array) != nil && !dim(t).(*dsl.Array).IsFixed() && dim(t).(*dsl.Array).HasKnownNumberOfDimensions() ==> result == "yardl.binary.NDArraySerializer(" + scalarSer(gen(t), contextNamespace, namedType) + ", " + itoa(len(*dim(t).(*dsl.Array).Dimensions)) + ")"
 //@   ensures dynamic_ndarray: isGenT(t) && typeof(dim(t)) == *dsl.Array && dim(t).(*dsl.Array) != nil && !dim(t).(*dsl.Array).IsFixed() && !dim(t).(*dsl.Array).HasKnownNumberOfDimensions() ==> result == "yardl.binary.DynamicNDArraySerializer(" + scalarSer(gen(t), contextNamespace, namedType) + ")"
+// A fixed-size array is handed to the runtime with its shape: MATLAB is column-major, so FixedNDArraySerializer wants
+// the fastest-varying (last declared) dimension first - the declared lengths fully reversed, for every rank.
+//@   invariant 0: forall j in len(*td.Dimensions)-1-rangeindex..len(*td.Dimensions) :: dims[j] == strconv.FormatUint(*(*td.Dimensions)[len(*td.Dimensions)-1-j].Length, 10)
+//@   ensures fixed_ndarray_shape_is_the_declared_shape_reversed: isGenT(t) && typeof(dim(t)) == *dsl.Array && dim(t).(*dsl.Array) != nil && dim(t).(*dsl.Array).IsFixed() ==> (len(lastArg(strings.Join, 0)) == len(*dim(t).(*dsl.Array).Dimensions) && (forall j in 0..len(*dim(t).(*dsl.Array).Dimensions) :: lastArg(strings.Join, 0)[j] == strconv.FormatUint(*(*dim(t).(*dsl.Array).Dimensions)[len(*dim(t).(*dsl.Array).Dimensions)-1-j].Length, 10)))
 //@   ensures map_key_then_value: isGenT(t) && typeof(dim(t)) == *dsl.Map && dim(t).(*dsl.Map) != nil ==> result == "yardl.binary.MapSerializer(" + typeSerializer(dim(t).(*dsl.Map).KeyType, contextNamespace, namedType) + ", " + typeSerializer(gen(t).ToScalar(), contextNamespace, namedType) + ")"
 
 // Output and diagnostics may not depend on the iteration order of a Go map (C12): decided per `range` over a map.
